@@ -184,6 +184,50 @@ def on_disk(ctx, N, do_model=True):
                     ctx.fail("too-many-tests", f"on disk, n={n} m={m}: {len(o.calls)} tests > bound {bound(n, m)}", case)
 
 
+def interleaved_jobs(ctx):
+    """two reductions driven side by side through the iterate/feedback API (both iterators exist before either runs): the
+    one with default options returns its core exactly, within the bound, whatever options the other strategy object has"""
+    for other in (dict(min=8, max=8, rep="never"), dict(max=2), dict(rep="never")):
+        for order in ("a-first", "b-first"):
+            n, core = 64, (5, 33, 60)
+            parts = atoms("line", n)
+            index = {p: i for i, p in enumerate(parts)}
+            sa, sb = strat.make_strategy("minimize", {}), strat.make_strategy("minimize", other)
+            tca = strat.testcase_from_fields("line", (b"", parts, [True] * n, b""))
+            tcb = strat.testcase_from_fields("line", (b"", parts[:16], [True] * 16, b""))
+            if order == "a-first":
+                ita = sa.reduce(tca)
+                itb = sb.reduce(tcb)
+            else:
+                itb = sb.reduce(tcb)
+                ita = sa.reduce(tca)
+            ga, gb = iter(ita), iter(itb)
+            tests, done_a, done_b = 1, False, False
+            while not (done_a and done_b):
+                if not done_a:
+                    try:
+                        att = next(ga)
+                        tests += 1
+                        ita.feedback(set(core) <= {index[p] for p in att.parts})
+                    except StopIteration:
+                        done_a = True
+                if not done_b:
+                    try:
+                        next(gb)
+                        itb.feedback(False)
+                    except StopIteration:
+                        done_b = True
+            got = [index[p] for p in ita.testcase.parts]
+            case = dict(kind="line", n=n, core=list(core), m=len(core), interleaved_with=other, order=order)
+            ctx.evaluations += 1
+            ctx.bump("interleaved-jobs")
+            if got != sorted(core):
+                ctx.fail("not-the-core", f"default minimize driven side by side with a minimize configured {other} ({order}): final atoms {got[:20]}, "
+                         f"core {list(core)}", case)
+            if tests > bound(n, len(core)):
+                ctx.fail("too-many-tests", f"default minimize side by side with {other}: {tests} tests > bound {bound(n, len(core))}", case)
+
+
 def second_pass(ctx):
     """ONE Lithium object is run a second time (the 'please perform another pass' advice) on the file the first pass left:
     the second pass is a reduction of THAT file — m atoms, all of them core — so it returns it unchanged within the bound
@@ -268,6 +312,7 @@ def run(ctx) -> int:
     collision_case(ctx)
     reused_strategy(ctx)
     second_pass(ctx)
+    interleaved_jobs(ctx)
     scripts_as_testcases(ctx)
     on_disk(ctx, 7 if ctx.thorough else 5)
     small(ctx, N0)
